@@ -67,17 +67,42 @@ Combo(n) ==      \* <<mergeProps, enableObjectSlots, transformOn>>
 AttrSeqs3 == {[i \in 1..3 |-> AttrAt(ks[i], i, "")] : ks \in [1..3 -> AttrKinds3]}
 KidSeqs3  == {<<>>} \cup {<<KidAt(k, 1)>> : k \in KidKinds3}
 
-Raw == {[tag |-> h, attrs |-> as, kids |-> ks, opts |-> Opt(Combo(oc)[1], Combo(oc)[2], Combo(oc)[3])] :
-          h \in Hosts, as \in AttrSeqs, ks \in KidSeqs, oc \in OptCombos}
-       \cup {[tag |-> h, attrs |-> as, kids |-> ks, opts |-> Opt(Combo(oc)[1], Combo(oc)[2], Combo(oc)[3])] :
-          h \in Hosts \ {TagFrag}, as \in AttrSeqs3, ks \in KidSeqs3, oc \in OptCombos}
+(* the product is enumerated by index arithmetic over small sequences (building it as one big set of nested *)
+(* records makes TLC sort ~10^5 deep records)                                                              *)
+HostsQ == SetToSeq(Hosts)
+AttrQ  == SetToSeq(AttrSeqs)
+KidQ   == SetToSeq(KidSeqs)
+OptQ   == SetToSeq(OptCombos)
+Attr3Q == SetToSeq(AttrSeqs3)
+Kid3Q  == SetToSeq(KidSeqs3)
+Host3Q == SetToSeq(Hosts \ {TagFrag})
+
+NA == Len(HostsQ) * Len(AttrQ) * Len(KidQ) * Len(OptQ)
+NB == Len(Host3Q) * Len(Attr3Q) * Len(Kid3Q) * Len(OptQ)
+
+Digit(n, base) == (n % base) + 1
+RawA(n) ==       \* n in 0..NA-1
+  LET o == Digit(n, Len(OptQ))                                  n1 == n \div Len(OptQ)
+      k == Digit(n1, Len(KidQ))                                 n2 == n1 \div Len(KidQ)
+      a == Digit(n2, Len(AttrQ))                                n3 == n2 \div Len(AttrQ)
+      h == Digit(n3, Len(HostsQ))
+  IN [tag |-> HostsQ[h], attrs |-> AttrQ[a], kids |-> KidQ[k], oc |-> OptQ[o]]
+RawB(n) ==
+  LET o == Digit(n, Len(OptQ))                                  n1 == n \div Len(OptQ)
+      k == Digit(n1, Len(Kid3Q))                                n2 == n1 \div Len(Kid3Q)
+      a == Digit(n2, Len(Attr3Q))                               n3 == n2 \div Len(Attr3Q)
+      h == Digit(n3, Len(Host3Q))
+  IN [tag |-> Host3Q[h], attrs |-> Attr3Q[a], kids |-> Kid3Q[k], oc |-> OptQ[o]]
+
+RawSeq == SelectSeq([n \in 1..(NA + NB) |-> IF n <= NA THEN RawA(n - 1) ELSE RawB(n - NA - 1)],
+                    LAMBDA r : ValidFor(r.tag, r.attrs))
 
 CaseSeq ==
-  LET raw == SetToSeq({r \in Raw : ValidFor(r.tag, r.attrs)}) IN
-  [i \in 1..Len(raw) |->
-     [case |-> "C11-" \o ToString(i), prop |-> "C11", opts |-> raw[i].opts,
+  [i \in 1..Len(RawSeq) |->
+     [case |-> "C11-" \o ToString(i), prop |-> "C11",
+      opts |-> Opt(Combo(RawSeq[i].oc)[1], Combo(RawSeq[i].oc)[2], Combo(RawSeq[i].oc)[3]),
       items |-> << [k |-> "export_jsx", name |-> "s1", ctx |-> "fn",
-                    elem |-> Elem(raw[i].tag, raw[i].attrs, raw[i].kids)] >>]]
+                    elem |-> Elem(RawSeq[i].tag, RawSeq[i].attrs, RawSeq[i].kids)] >>]]
 
 ASSUME PrintT(<<"CASES", Len(CaseSeq)>>)
 ASSUME ndJsonSerialize(IOEnv.CASES_OUT, CaseSeq)
